@@ -321,7 +321,7 @@ func (s *TreeScheduler) work(ctx context.Context, ch chan Item) {
 			s.sm.reportScheduleDelay(time.Since(it.Next()))
 			preExec := time.Now()
 			// execute
-			err = s.executor.Execute(ctx, it.id, t, it.When())
+			err = s.executor.Execute(ctx, it.id, t, it.runAt())
 			// report how long execution took
 			s.sm.reportExecution(err, time.Since(preExec))
 			return err
@@ -344,6 +344,12 @@ func (s *TreeScheduler) Schedule(sch Schedulable) error {
 		id:     sch.ID(),
 		Offset: int64(sch.Offset().Seconds()),
 		//last:   sch.LastScheduled().Unix(),
+	}
+	if sch.Offset() > time.Duration(it.Offset)*time.Second {
+		// Offset counts whole seconds: a positive sub-second rest of the offset is rounded up instead of dropped,
+		// otherwise the task would run up to a second before next+offset.
+		it.Offset++
+		it.roundedUp = 1
 	}
 	nt, err := it.cron.Next(sch.LastScheduled())
 	if err != nil {
@@ -391,6 +397,8 @@ type Item struct {
 	cron   Schedule
 	next   int64
 	Offset int64
+	// roundedUp is 1 when Offset was rounded up from an offset with a positive sub-second part, else 0.
+	roundedUp int64
 }
 
 func (it Item) Next() time.Time {
@@ -399,6 +407,11 @@ func (it Item) Next() time.Time {
 
 func (it Item) When() time.Time {
 	return time.Unix(it.when, 0)
+}
+
+// runAt is the run time reported to the executor: next plus the whole seconds of the task's offset.
+func (it Item) runAt() time.Time {
+	return time.Unix(it.when-it.roundedUp, 0)
 }
 
 // Less tells us if one Item is less than another
